@@ -1049,6 +1049,29 @@ Definition reply_sent (f f' : fdl) (src : Z) (st : resp_state) : Prop :=
 Definition gap_cursor_ok (f : fdl) : Prop :=
   0 <= ts f < p_hsa (f_p f) /\ forall c, f_gap f = GapDoPoll c -> 0 <= c < p_hsa (f_p f).
 
+(* the token-use states.  Since the F20 repair a poll that begins in one of them and finds nothing (more)
+   to send goes on to do_pass_token in the same poll: the GAP request or the token goes out at once. *)
+Definition in_use (s : state) : Prop := kind_of s = KUseToken \/ kind_of s = KAwaitDataResponse.
+
+(* the states from which the GAP step of a token visit is taken *)
+Definition gap_origin (s : state) : Prop := (exists att, s = PassToken true att) \/ in_use s.
+
+(* no application has sent anything: the callbacks of the poll (beyond `calls`) are declines of
+   transmit_telegram and at most the time-out that precedes them - and there are none at all unless the
+   poll began in a token-use state *)
+Definition no_send (c : call) : Prop := match c with CallTransmit _ _ (Some _) => False | _ => True end.
+Definition quiet_calls (f : fdl) (calls calls' : list call) : Prop :=
+  exists l, calls' = calls ++ l /\ Forall no_send l /\ (l <> [] -> in_use (f_state f)).
+
+Lemma quiet_calls_same f calls calls' : calls' = calls -> quiet_calls f calls calls'.
+Proof. intros ->. exists []. rewrite app_nil_r. split; [reflexivity|]. split; [constructor|]. intros C; contradiction C; reflexivity. Qed.
+
+Lemma quiet_calls_nil f calls : ~ in_use (f_state f) -> quiet_calls f [] calls -> calls = [].
+Proof.
+  intros Hn [l [Hl [_ Hu]]]. cbn in Hl. subst l. destruct calls as [|c l]; [reflexivity|].
+  exfalso. apply Hn, Hu. discriminate.
+Qed.
+
 Definition tx_app (f f' : fdl) (calls' : list call) (wire : bytes) : Prop :=
   exists cs i hp er, calls' = cs ++ [CallTransmit i hp (Some (wire, er))] /\
     (kind_of (f_state f) = KUseToken \/ kind_of (f_state f) = KAwaitDataResponse) /\
@@ -1066,13 +1089,13 @@ Definition tx_token (f f' : fdl) (now : Z) (wire : bytes) : Prop :=
        (f_state f' = ClaimToken StepScan /\ f_state f = ClaimToken StepSecondToken))) \/
      ((f_state f' = UseToken now None false \/ exists att, f_state f' = CheckTokenPass att) /\
       (kind_of (f_state f) = KPassToken \/ kind_of (f_state f) = KAwaitStatusResponse \/
-       kind_of (f_state f) = KCheckTokenPass))).
+       kind_of (f_state f) = KCheckTokenPass \/ in_use (f_state f)))).
 
 Definition tx_gap (f f' : fdl) (wire : bytes) : Prop :=
   exists a, wire = sr_wire a (ts f) /\ in_gap (ts f) (r_ns (f_ring f)) a /\
     (gap_cursor_ok f -> 0 <= a < p_hsa (f_p f)) /\
     f_ring f' = f_ring f /\ f_gap f' = GapDoPoll a /\
-    ((f_state f' = AwaitStatusResponse a /\ exists att, f_state f = PassToken true att) \/
+    ((f_state f' = AwaitStatusResponse a /\ gap_origin (f_state f)) \/
      (f_state f' = ClaimToken (StepScanAwaitResponse a) /\
       (f_state f = ClaimToken StepScan \/ exists a0, f_state f = ClaimToken (StepScanAwaitResponse a0)))).
 
@@ -1081,11 +1104,11 @@ Definition tx_reply (f f' : fdl) (wire : bytes) : Prop :=
 
 Definition tx_class (f f' : fdl) (now : Z) (calls calls' : list call) (wire : bytes) : Prop :=
   tx_app f f' calls' wire \/
-  (calls' = calls /\ (tx_token f f' now wire \/ tx_gap f f' wire \/ tx_reply f f' wire)).
+  (quiet_calls f calls calls' /\ (tx_token f f' now wire \/ tx_gap f f' wire \/ tx_reply f f' wire)).
 
 (* when the GAP state may change *)
 Definition gap_change (f f' : fdl) : Prop :=
-  (exists att, f_state f = PassToken true att /\ gap_visit_step f = Ok (f_gap f')) \/
+  (gap_origin (f_state f) /\ gap_visit_step f = Ok (f_gap f')) \/
   kind_of (f_state f) = KClaimToken \/
   (f_state f' = ClaimToken StepSecondToken /\ f_gap f' = GapDoPoll (ts f)) \/
   (f_state f' = Offline /\ f_conn f' = ConnOffline).
@@ -1116,14 +1139,14 @@ Lemma tx_class_pre f0 f f' now calls calls' wire :
   f_p f = f_p f0 -> f_ring f = f_ring f0 -> f_state f = f_state f0 -> f_gap f = f_gap f0 ->
   tx_class f f' now calls calls' wire -> tx_class f0 f' now calls calls' wire.
 Proof.
-  intros Hp Hr Hs Hg. unfold tx_class, tx_app, tx_token, idle_kind, tx_gap, tx_reply, reply_sent, gap_cursor_ok, ts. rewrite Hp, Hr, Hs, Hg. tauto.
+  intros Hp Hr Hs Hg. unfold tx_class, quiet_calls, tx_app, tx_token, idle_kind, tx_gap, gap_origin, in_use, tx_reply, reply_sent, gap_cursor_ok, ts. rewrite Hp, Hr, Hs, Hg. tauto.
 Qed.
 
 Lemma gap_change_pre f0 f f' :
   f_p f = f_p f0 -> f_ring f = f_ring f0 -> f_state f = f_state f0 -> f_gap f = f_gap f0 ->
   gap_change f f' -> gap_change f0 f'.
 Proof.
-  intros Hp Hr Hs Hg. unfold gap_change. rewrite (gap_visit_step_ext f f0 Hp Hr Hg). unfold ts. rewrite Hp, Hs. tauto.
+  intros Hp Hr Hs Hg. unfold gap_change, gap_origin, in_use. rewrite (gap_visit_step_ext f f0 Hp Hr Hg). unfold ts. rewrite Hp, Hs. tauto.
 Qed.
 
 Lemma facts_l_pre (L0 L : Prop) f0 f f' (w0 w w' : W) now :
@@ -1177,18 +1200,18 @@ Proof.
   destruct Hcases as [[T [S [G R]]]|[[-> [a [Hstep [G [S [R [T0 T]]]]]]]|[G [T0 [T [Wi St]]]]]].
   - split; [intros Hn; left; rewrite T; exact Hn|]. split; [intros src Hm; left; rewrite <- S; exact Hm|left; exact G].
   - split.
-    + intros _. right. exists (sr_wire a (ts f)). split; [exact T|]. right. split; [exact Hca|]. right. left.
+    + intros _. right. exists (sr_wire a (ts f)). split; [exact T|]. right. split; [apply quiet_calls_same; exact Hca|]. right. left.
       exists a. destruct (gap_visit_step_in_gap f a Hstep) as [I1 I2].
-      repeat (split; [assumption || reflexivity|]). left. split; [exact S|exists att; exact Es].
+      repeat (split; [assumption || reflexivity|]). left. split; [exact S|left; exists att; exact Es].
     + split; [intros src Hm; rewrite S in Hm; discriminate Hm|].
-      right. left. exists att. split; [exact Es|]. rewrite G. exact Hstep.
+      right. left. split; [left; exists att; exact Es|]. rewrite G. exact Hstep.
   - split.
-    + intros _. right. eexists. split; [exact T|]. right. split; [exact Hca|]. left.
+    + intros _. right. eexists. split; [exact T|]. right. split; [apply quiet_calls_same; exact Hca|]. left.
       eexists. split; [reflexivity|]. right. split; [|left; rewrite Es; reflexivity].
       destruct St as [[_ S]|[_ S]]; [left; exact S|right; exists att; exact S].
     + split; [intros src Hm; destruct St as [[_ S]|[_ S]]; rewrite S in Hm; discriminate Hm|].
       destruct dg.
-      * destruct G as [n [Hstep G]]. right. left. exists att. split; [exact Es|]. rewrite G. exact Hstep.
+      * destruct G as [n [Hstep G]]. right. left. split; [left; exists att; exact Es|]. rewrite G. exact Hstep.
       * left. exact G.
 Qed.
 
@@ -1205,7 +1228,7 @@ Proof.
   - split; [intros Hn; left; rewrite T; exact Hn|]. split; [intros src Hm; rewrite S in Hm; discriminate Hm|left; exact Hg].
   - split; [intros Hn; left; rewrite T; exact Hn|]. split; [intros src Hm; rewrite S in Hm; discriminate Hm|left; exact Hg].
   - split.
-    + intros _. right. eexists. split; [exact T|]. right. split; [exact Hca|]. left.
+    + intros _. right. eexists. split; [exact T|]. right. split; [apply quiet_calls_same; exact Hca|]. left.
       eexists. split; [reflexivity|]. right. split; [|right; left; rewrite Es; reflexivity].
       destruct St as [[_ S]|[_ S]]; [left; exact S|right; exists AttFirst; exact S].
     + split; [intros src Hm; destruct St as [[_ S]|[_ S]]; rewrite S in Hm; discriminate Hm|left; exact Hg].
@@ -1235,19 +1258,19 @@ Proof.
     - split; [intros Hn; left; rewrite T; exact Hn|intros src Hm; rewrite S in Hm; discriminate Hm].
     - split; [intros Hn; left; rewrite T; exact Hn|intros src Hm; rewrite <- S; exact Hm].
     - split; [|intros src Hm; rewrite S in Hm; discriminate Hm].
-      intros _. right. eexists. split; [exact T|]. right. split; [exact Hca|]. right. left.
+      intros _. right. eexists. split; [exact T|]. right. split; [apply quiet_calls_same; exact Hca|]. right. left.
       exists a. destruct (next_gap_poll_in_gap' f cur a N G0) as [I1 I2].
       repeat (split; [assumption || reflexivity|]). right. split; [exact S|exact Hst]. }
   destruct st0 as [ | | |a0].
   - destruct Hcases as [Hrx [[T [S [G R]]]|[T0 [T [S [G R]]]]]].
     + split; [intros Hn; left; rewrite T; exact Hn|]. split; [intros src Hm; left; rewrite <- S; exact Hm|exact HG].
     + split; [|split; [intros src Hm; rewrite S in Hm; discriminate Hm|exact HG]].
-      intros _. right. eexists. split; [exact T|]. right. split; [exact Hca|]. left.
+      intros _. right. eexists. split; [exact T|]. right. split; [apply quiet_calls_same; exact Hca|]. left.
       eexists. split; [reflexivity|]. left. split; [reflexivity|]. left. split; [exact S|right; exact Es].
   - destruct Hcases as [Hrx [[T [S [G R]]]|[T0 [T [S [G R]]]]]].
     + split; [intros Hn; left; rewrite T; exact Hn|]. split; [intros src Hm; left; rewrite <- S; exact Hm|exact HG].
     + split; [|split; [intros src Hm; rewrite S in Hm; discriminate Hm|exact HG]].
-      intros _. right. eexists. split; [exact T|]. right. split; [exact Hca|]. left.
+      intros _. right. eexists. split; [exact T|]. right. split; [apply quiet_calls_same; exact Hca|]. left.
       eexists. split; [reflexivity|]. left. split; [reflexivity|]. right. split; [exact S|exact Es].
   - destruct Hcases as [Hr [Hrx Hsc]]. destruct (Hscan True Hsc Hr (or_introl Es)) as [X Y]. split; [exact X|]. split; [intros src Hm; left; exact (Y src Hm)|exact HG].
   - destruct Hcases as [Hne [Hg0 [rest [received [Hrcv [Hrx Hcs]]]]]].
@@ -1259,7 +1282,7 @@ Proof.
       * split; [intros Hn; left; rewrite T; exact Hn|]. split; [intros src Hm; rewrite S in Hm; discriminate Hm|exact HG].
       * split; [intros Hn; left; rewrite T; exact Hn|]. split; [intros src Hm; rewrite S in Hm; discriminate Hm|exact HG].
       * split; [|split; [intros src Hm; rewrite S in Hm; discriminate Hm|exact HG]].
-        intros _. right. eexists. split; [exact T|]. right. split; [exact Hca|]. right. left.
+        intros _. right. eexists. split; [exact T|]. right. split; [apply quiet_calls_same; exact Hca|]. right. left.
         exists a. destruct (next_gap_poll_in_gap' f a0 a N Hg0) as [I1 I2].
         repeat (split; [assumption || reflexivity|]). right. split; [exact S|right; exists a0; exact Es].
 Qed.
@@ -1294,7 +1317,7 @@ Proof.
       assert (Hts : ts (set_st f0 (ClaimToken StepFirstToken)) = ts f) by (unfold ts; cbn; rewrite Hp0; reflexivity).
       rewrite Hts in *.
       split; [|split; [intros src Hm; rewrite S in Hm; discriminate Hm|right; right; right; left; split; [exact S|exact G]]].
-      intros _. right. eexists. split; [exact T|]. right. split; [exact Hca|]. left.
+      intros _. right. eexists. split; [exact T|]. right. split; [apply quiet_calls_same; exact Hca|]. left.
       eexists. split; [reflexivity|]. left. split; [reflexivity|]. left. split; [exact S|]. left.
       unfold idle_kind. tauto.
   - injection H as <- <- <-. split; [unfold same_but_lba; tauto|]. split; [reflexivity|].
@@ -1475,7 +1498,7 @@ Proof.
           - rewrite Hs1, Hs0, Es in Et. cbn [get_listen_token bind] in Et. injection Et as <- <-. cbn. repeat split; congruence. }
         destruct H2 as [Hp2 [Hg2 [Hca2 [Htx2 Hs2]]]].
         unfold facts, facts_l. split; [congruence|]. split; [|split].
-        -- intros _. right. eexists. split; [exact Htx2|]. right. split; [exact Hca2|]. right. right.
+        -- intros _. right. eexists. split; [exact Htx2|]. right. split; [apply quiet_calls_same; exact Hca2|]. right. right.
            eexists; eexists. split; [reflexivity|]. left. exists cc0. split; [exact Es|]. split; [reflexivity|]. rewrite Hs3. exact Hs2.
         -- intros s Hm. rewrite Hs3, Hs2 in Hm. destruct (ready_for_ring (f_ring f)); discriminate Hm.
         -- left. congruence.
@@ -1507,7 +1530,7 @@ Proof.
         injection H as <- <-. apply mark_tx_same in Em. destruct Em as [Hp3 [Hr3 [Hc3 [Hg3 [Hs3 _]]]]].
         cbn in Hp3, Hg3, Hs3.
         unfold facts, facts_l. split; [congruence|]. split; [|split].
-        -- intros _. right. eexists. split; [reflexivity|]. right. split; [reflexivity|]. right. right.
+        -- intros _. right. eexists. split; [reflexivity|]. right. split; [apply quiet_calls_same; reflexivity|]. right. right.
            eexists; eexists. split; [reflexivity|]. right. exists nps0, cc0. split; [exact Es|]. split; [reflexivity|]. exact Hs3.
         -- intros s Hm. rewrite Hs3 in Hm. discriminate Hm.
         -- left. congruence.
@@ -1552,8 +1575,8 @@ Proof.
     + apply facts_quiet; try congruence. rewrite S. reflexivity.
     + discriminate D.
     + unfold facts, facts_l. split; [congruence|]. split; [|split].
-      * intros _. right. eexists. split; [exact T|]. right. split; [congruence|]. left.
-        eexists. split; [rewrite Hts; reflexivity|]. right. split; [|right; right; rewrite Es; reflexivity].
+      * intros _. right. eexists. split; [exact T|]. right. split; [apply quiet_calls_same; congruence|]. left.
+        eexists. split; [rewrite Hts; reflexivity|]. right. split; [|right; right; left; rewrite Es; reflexivity].
         destruct St as [[_ S]|[_ S]]; [left; exact S|right; eexists; exact S].
       * intros src Hm. destruct St as [[_ S]|[_ S]]; rewrite S in Hm; discriminate Hm.
       * left. congruence.
@@ -1639,10 +1662,10 @@ Proof.
   - left. exact U2.
 Qed.
 
-Lemma do_use_token_use_facts f now (w : W) f' w' :
-  do_use_token A ops f now w = Ok (f', w') -> use_facts f f' w w'.
+Lemma do_use_token_head_use_facts f now (w : W) f' w' :
+  do_use_token_head A ops f now w = Ok (f', w') -> use_facts f f' w w'.
 Proof.
-  unfold do_use_token, assert_entry. intros H.
+  unfold do_use_token_head, assert_entry. intros H.
   destruct (f_state f) as [ | | | |tk fa fcd| | | | | ] eqn:Es; cbn [kind_of do_fn_entry state_kind_eqb bind get_use_token] in H; try discriminate H.
   match type of H with bind ?x _ = _ => destruct x as [[f1 w1]| |] eqn:E1 end; cbn [bind] in H; try discriminate H.
   assert (H1 : f_p f1 = f_p f /\ f_gap f1 = f_gap f /\ f_state f1 = f_state f /\ w_tx w1 = w_tx w).
@@ -1718,9 +1741,95 @@ Proof.
         exact (Hloop true (note A w1 TUseHighPrioOnce) f3 w3 d Ht1 El H).
 Qed.
 
+(* The whole do_use_token (F20 repair): the head, then - when the head found nothing (more) to send -
+   do_pass_token in the same poll.  What it transmits is an application's telegram, or (no application
+   having sent anything) the GAP request / the token of do_pass_token; the GAP state is left alone or
+   advanced by exactly the GAP step of the visit.  Stated without reference to the state of f, so that
+   it can be transported along the time-out path of do_await_data_response. *)
+Definition pass_token_tx (f f' : fdl) (now : Z) (wire : bytes) : Prop :=
+  wire = encode_token (r_ns (f_ring f)) (ts f) /\
+  (f_state f' = UseToken now None false \/ exists att, f_state f' = CheckTokenPass att).
+Definition pass_gap_tx (f f' : fdl) (wire : bytes) : Prop :=
+  exists a, wire = sr_wire a (ts f) /\ in_gap (ts f) (r_ns (f_ring f)) a /\
+    (gap_cursor_ok f -> 0 <= a < p_hsa (f_p f)) /\
+    f_ring f' = f_ring f /\ f_gap f' = GapDoPoll a /\ f_state f' = AwaitStatusResponse a.
+
+Definition use_pass_facts (f f' : fdl) (calls : list call) (tx0 : option bytes) (w' : W) (now : Z) : Prop :=
+  f_p f' = f_p f /\ marker (f_state f') = None /\
+  (f_gap f' = f_gap f \/ gap_visit_step f = Ok (f_gap f')) /\
+  (tx0 = None -> w_tx w' = None \/ exists wire, w_tx w' = Some wire /\
+     ((exists cs i hp er, w_calls w' = cs ++ [CallTransmit i hp (Some (wire, er))] /\ in_use (f_state f')) \/
+      ((exists l, w_calls w' = calls ++ l /\ Forall no_send l) /\
+       (pass_token_tx f f' now wire \/ pass_gap_tx f f' wire)))).
+
+Lemma use_pass_facts_pre f0 f f' calls0 calls tx0 tx1 (w' : W) now pre :
+  f_p f = f_p f0 -> f_ring f = f_ring f0 -> f_gap f = f_gap f0 ->
+  tx1 = tx0 -> calls = calls0 ++ pre -> Forall no_send pre ->
+  use_pass_facts f f' calls tx1 w' now -> use_pass_facts f0 f' calls0 tx0 w' now.
+Proof.
+  intros Hp Hr Hg -> -> Hpre [U1 [U2 [U3 U4]]]. unfold use_pass_facts.
+  split; [congruence|]. split; [exact U2|]. split.
+  - rewrite <- Hg, <- (gap_visit_step_ext f f0 Hp Hr Hg). exact U3.
+  - intros Hn. destruct (U4 Hn) as [X|[wire [X Y]]]; [left; exact X|]. right. exists wire. split; [exact X|].
+    destruct Y as [Y|[[l [Hl Hf]] Y]]; [left; exact Y|right]. split.
+    + exists (pre ++ l). split; [rewrite Hl, app_assoc; reflexivity|apply Forall_app; split; assumption].
+    + unfold pass_token_tx, pass_gap_tx, gap_cursor_ok, ts in *. rewrite <- Hp, <- Hr, <- Hg. exact Y.
+Qed.
+
+Lemma use_pass_facts_facts f f' (w w' : W) now :
+  in_use (f_state f) -> use_pass_facts f f' (w_calls w) (w_tx w) w' now -> facts f f' w w' now.
+Proof.
+  intros Hu [U1 [U2 [U3 U4]]]. unfold facts, facts_l. split; [exact U1|]. split; [|split].
+  - intros Hn. destruct (U4 Hn) as [X|[wire [X Y]]]; [left; exact X|]. right. exists wire. split; [exact X|].
+    destruct Y as [[cs [i [hp [er [C K]]]]]|[[l [Hl Hf]] Y]].
+    + left. exists cs, i, hp, er. split; [exact C|]. split; [exact Hu|exact K].
+    + right. split; [exists l; split; [exact Hl|]; split; [exact Hf|intros _; exact Hu]|].
+      destruct Y as [[Hw St]|[a [Hw [Hin [Hr [Hring [Hg St]]]]]]].
+      * left. exists (r_ns (f_ring f)). split; [exact Hw|]. right. split; [exact St|]. right. right. right. exact Hu.
+      * right. left. exists a. repeat (split; [assumption|]). left. split; [exact St|right; exact Hu].
+  - intros src Hm. rewrite U2 in Hm. discriminate Hm.
+  - destruct U3 as [X|X]; [left; exact X|right; left; split; [right; exact Hu|exact X]].
+Qed.
+
+Lemma is_decline_no_send c : is_decline c -> no_send c.
+Proof. intros [i [hp ->]]. exact I. Qed.
+
+Lemma do_use_token_use_pass_facts f now (w : W) f' w' :
+  do_use_token A ops f now w = Ok (f', w') -> use_pass_facts f f' (w_calls w) (w_tx w) w' now.
+Proof.
+  rewrite do_use_token_split. intros H.
+  destruct (do_use_token_head A ops f now w) as [[f1 w1]| |] eqn:Eh; cbn [bind] in H; try discriminate H.
+  pose proof (do_use_token_head_use_facts _ _ _ _ _ Eh) as [U1 [U2 [U3 U4]]].
+  destruct (is_pass_token (f_state f1)) eqn:Ek.
+  - destruct (do_use_token_head_pass _ _ _ _ _ _ _ Eh Ek) as [Es1 [Ekf [Hp1 [Hr1 [Hc1 [Hg1 [_ [Ht1 [Hx1 [l [Hl Hdl]]]]]]]]]]].
+    assert (Hns : Forall no_send l) by (eapply Forall_impl; [|exact Hdl]; exact is_decline_no_send).
+    assert (Hts : ts f1 = ts f) by (unfold ts; rewrite Hp1; reflexivity).
+    apply do_pass_token_spec in H. destruct H as [dg [att [Est [Hp [Hc [Hca [Hap [Hrx Hcases]]]]]]]].
+    rewrite Es1 in Est. injection Est as <- <-.
+    rewrite (gap_visit_step_ext f1 f Hp1 Hr1 Hg1), Hts, Hr1 in Hcases.
+    unfold use_pass_facts. split; [congruence|].
+    destruct Hcases as [[T [S [G R]]]|[[_ [a [Hstep [G [S [R [T0 T]]]]]]]|[[n [Hstep G]] [T0 [T [Wi St]]]]]].
+    + split; [rewrite S, Es1; reflexivity|]. split; [left; congruence|]. intros Hn. left. congruence.
+    + split; [rewrite S; reflexivity|]. split; [right; rewrite G; exact Hstep|].
+      intros _. right. exists (sr_wire a (ts f)). split; [exact T|]. right.
+      split; [exists l; split; [congruence|exact Hns]|]. right. exists a.
+      destruct (gap_visit_step_in_gap f a Hstep) as [I1 I2].
+      split; [reflexivity|]. split; [exact I1|]. split; [exact I2|]. split; [congruence|]. split; [exact G|exact S].
+    + split; [destruct St as [[_ S]|[_ S]]; rewrite S; reflexivity|]. split; [right; rewrite G; exact Hstep|].
+      intros _. right. eexists. split; [exact T|]. right.
+      split; [exists l; split; [congruence|exact Hns]|]. left. split; [reflexivity|].
+      destruct St as [[_ S]|[_ S]]; [left; exact S|right; eexists; exact S].
+  - injection H as <- <-. unfold use_pass_facts. split; [exact U1|]. split; [exact U3|]. split; [left; exact U2|].
+    intros Hn. destruct (U4 Hn) as [X|[wire [X [cs [i [hp [er [C [_ K]]]]]]]]]; [left; exact X|].
+    right. exists wire. split; [exact X|]. left. exists cs, i, hp, er. split; [exact C|exact K].
+Qed.
+
 Lemma do_use_token_facts f now (w : W) f' w' :
   do_use_token A ops f now w = Ok (f', w') -> facts f f' w w' now.
-Proof. intros H. apply use_facts_facts. exact (do_use_token_use_facts _ _ _ _ _ H). Qed.
+Proof.
+  intros H. apply use_pass_facts_facts; [|exact (do_use_token_use_pass_facts _ _ _ _ _ H)].
+  left. unfold do_use_token, assert_entry in H. destruct (f_state f); cbn in H; try discriminate H. reflexivity.
+Qed.
 
 Lemma do_await_data_response_facts f now (w : W) f' w' :
   do_await_data_response A ops f now w = Ok (f', w') -> facts f f' w w' now.
@@ -1742,21 +1851,22 @@ Proof.
       unfold transition_active_idle in Htr. destruct (assert_kind _ _); cbn [bind] in Htr; try discriminate Htr. injection Htr as <-.
       apply facts_quiet; cbn; congruence.
   - destruct (check_slot_expired _ now) as [[f1 expired]| |] eqn:Ec; cbn [bind] in H; try discriminate H.
-    apply check_slot_expired_same in Ec. destruct Ec as [Hp1 [_ [_ [Hg1 [Hs1 _]]]]]. cbn in Hp1, Hg1, Hs1.
+    apply check_slot_expired_same in Ec. destruct Ec as [Hp1 [Hr1 [_ [Hg1 [Hs1 _]]]]]. cbn in Hp1, Hr1, Hg1, Hs1.
     destruct expired.
     + destruct (a_to ops app now _ addr) as [app'| |]; cbn [bind] in H; try discriminate H.
       match type of H with context [trans A ?a ?b ?c] => destruct (trans A a b c) as [[f2 w2]| |] eqn:Et end; cbn [bind] in H; try discriminate H.
       apply trans_spec in Et. destruct Et as [s' [Htr [-> ->]]].
       unfold transition_use_token in Htr. destruct (assert_kind _ _); cbn [bind] in Htr; try discriminate Htr. injection Htr as <-.
       unfold set_first_cycle_done in H. cbn [set_st f_state get_use_token bind] in H.
-      apply do_use_token_use_facts in H. destruct H as [F1 [F2 [F3 F4]]].
-      cbn [set_st f_p f_gap f_state note log_call set_app set_rx w_tx w_calls w_rx] in F1, F2, F3, F4.
-      apply use_facts_facts. unfold use_facts. split; [congruence|]. split; [congruence|]. split; [exact F3|].
-      intros Hn.
-      assert (Hn' : w_tx (if Nat.ltb (length rest) (length (w_rx w)) then note A w TReplyRxDiscard else w) = None)
-        by (destruct (Nat.ltb _ _); exact Hn).
-      destruct (F4 Hn') as [X|[wire [X [cs [i [hp [er [C [_ K]]]]]]]]]; [left; exact X|].
-      right. exists wire. split; [exact X|]. exists cs, i, hp, er. split; [exact C|]. split; [right; rewrite Es; reflexivity|exact K].
+      apply do_use_token_use_pass_facts in H.
+      apply use_pass_facts_facts; [right; rewrite Es; reflexivity|].
+      eapply (use_pass_facts_pre f _ f' (w_calls w) _ (w_tx w) _ w' now [CallHandleTimeout (f_next_app f) addr]); [| | | | | |exact H].
+      * cbn. exact Hp1.
+      * cbn. exact Hr1.
+      * cbn. exact Hg1.
+      * cbn [w_tx w_calls note log_call set_app set_rx]. destruct (Nat.ltb _ _); reflexivity.
+      * cbn [w_tx w_calls note log_call set_app set_rx]. destruct (Nat.ltb _ _); reflexivity.
+      * constructor; [exact I|constructor].
     + injection H as <- <-. apply facts_silent; cbn; try congruence.
       match goal with |- context [if ?c then _ else _] => destruct c end; reflexivity.
 Qed.
@@ -1851,20 +1961,27 @@ Proof.
     + intros Hn. rewrite <- P5 in Hn. destruct (F2 Hn) as [X|[wire [X Y]]]; [left; exact X|]. right. exists wire. split; [exact X|].
       rewrite <- P6. destruct Y as [Y|[Yc [Y|[Y|Y]]]].
       * exfalso. destruct Y as [cs [i [hp [er [_ [[K|K] _]]]]]]; destruct Hst as [Q|Q]; rewrite Q in K; discriminate K.
-      * right. split; [exact Yc|]. left. destruct Y as [da [Hw Y]]. exists da. rewrite <- Hts. split; [exact Hw|].
-        destruct Y as [[Hda [[S _]|[_ S]]]|[_ [K|[K|K]]]].
+      * right. split.
+        { destruct Yc as [l [Hl [Hf Hu]]]. destruct l as [|c l]; [apply quiet_calls_same; rewrite Hl, app_nil_r; reflexivity|].
+          exfalso. destruct (Hu ltac:(discriminate)) as [K|K]; destruct Hst as [Q|Q]; rewrite Q in K; discriminate K. }
+        left. destruct Y as [da [Hw Y]]. exists da. rewrite <- Hts. split; [exact Hw|].
+        destruct Y as [[Hda [[S _]|[_ S]]]|[_ [K|[K|[K|[K|K]]]]]].
         -- left. split; [exact Hda|]. left. split; [exact S|left; exact Hidle].
         -- exfalso. destruct Hst as [Q|Q]; rewrite Q in S; discriminate S.
         -- exfalso. destruct Hst as [Q|Q]; rewrite Q in K; discriminate K.
         -- exfalso. destruct Hst as [Q|Q]; rewrite Q in K; discriminate K.
         -- exfalso. destruct Hst as [Q|Q]; rewrite Q in K; discriminate K.
-      * exfalso. destruct Y as [a [_ [_ [_ [_ [_ [[_ [att S]]|[_ [S|[a0 S]]]]]]]]]]; destruct Hst as [Q|Q]; rewrite Q in S; discriminate S.
+        -- exfalso. destruct Hst as [Q|Q]; rewrite Q in K; discriminate K.
+        -- exfalso. destruct Hst as [Q|Q]; rewrite Q in K; discriminate K.
+      * exfalso. destruct Y as [a [_ [_ [_ [_ [_ [[_ [[att S]|[S|S]]]|[_ [S|[a0 S]]]]]]]]]]; destruct Hst as [Q|Q]; rewrite Q in S; discriminate S.
       * exfalso. destruct Y as [src [st [_ [[cc [S _]]|[nps [cc [S _]]]]]]]; destruct Hst as [Q|Q]; rewrite Q in S; discriminate S.
     + intros src Hm. destruct (F3 src Hm) as [X|[X1 [X2 [X3 X4]]]].
       * exfalso. destruct Hst as [Q|Q]; rewrite Q in X; discriminate X.
       * right. rewrite <- P7, <- Hts. repeat (split; [assumption|]). intros _. exact (X4 Hle3).
     + rewrite <- P3. destruct F4 as [X|X]; [left; exact X|]. right.
-      destruct X as [[att [S _]]|[S|[S|S]]].
+      destruct X as [[[[att S]|[S|S]] _]|[S|[S|S]]].
+      * exfalso. destruct Hst as [Q|Q]; rewrite Q in S; discriminate S.
+      * exfalso. destruct Hst as [Q|Q]; rewrite Q in S; discriminate S.
       * exfalso. destruct Hst as [Q|Q]; rewrite Q in S; discriminate S.
       * exfalso. destruct Hst as [Q|Q]; rewrite Q in S; discriminate S.
       * right. right. left. rewrite <- Hts. exact S.
@@ -1950,8 +2067,9 @@ Theorem poll_gap_request_in_gap f now pin (apps : list A) f' o apps' calls a :
   poll ops f now pin apps = Ok (f', o, apps', calls) -> gap_request f' o a ->
   in_gap (ts f) (r_ns (f_ring f)) a /\ a <> ts f /\ a <> r_ns (f_ring f) /\
   (gap_cursor_ok f -> 0 <= a < p_hsa (f_p f)) /\
-  tx o = Some (sr_wire a (ts f)) /\ calls = [] /\ f_ring f' = f_ring f /\ f_gap f' = GapDoPoll a /\
-  ((f_state f' = AwaitStatusResponse a /\ exists att, f_state f = PassToken true att) \/
+  tx o = Some (sr_wire a (ts f)) /\ (Forall no_send calls /\ (calls <> [] -> in_use (f_state f))) /\
+  f_ring f' = f_ring f /\ f_gap f' = GapDoPoll a /\
+  ((f_state f' = AwaitStatusResponse a /\ gap_origin (f_state f)) \/
    (f_state f' = ClaimToken (StepScanAwaitResponse a) /\
     (f_state f = ClaimToken StepScan \/ exists a0, f_state f = ClaimToken (StepScanAwaitResponse a0)))).
 Proof.
@@ -1964,7 +2082,8 @@ Proof.
     assert (a' = a).
     { destruct Hs as [[S' _]|[S' _]]; destruct Hst as [S|S]; rewrite S in S'; try discriminate S'; injection S' as S'; symmetry; exact S'. }
     subst a'. split; [exact Hin|]. split; [exact (in_gap_not_self _ _ _ Hin)|]. split; [exact (in_gap_not_ns _ _ _ Hin)|].
-    split; [exact Hr|]. split; [rewrite Hw; reflexivity|]. split; [exact Yc|]. split; [exact Hring|]. split; [exact Hg|exact Hs].
+    split; [exact Hr|]. split; [rewrite Hw; reflexivity|].
+    split; [destruct Yc as [l [Hl [Hf Hu]]]; cbn in Hl; subst l; split; assumption|]. split; [exact Hring|]. split; [exact Hg|exact Hs].
   - exfalso. destruct Y as [src [st [_ [[cc [_ [_ S']]]|[nps [cc [_ [_ S']]]]]]]].
     + destruct (ready_for_ring (f_ring f)); destruct Hst as [S|S]; rewrite S in S'; discriminate S'.
     + destruct Hst as [S|S]; rewrite S in S'; discriminate S'.
@@ -2059,16 +2178,20 @@ Proof.
       destruct (f_state f') as [ | | | | | | | | |a] eqn:Es'; try discriminate Eg.
       assert (Hgr : gap_request f' o a) by (split; [rewrite Et; discriminate|left; exact Es']).
       destruct (poll_gap_request_in_gap _ _ _ _ _ _ _ _ _ Ep Hgr) as [_ [_ [_ [_ [_ [_ [_ [_ Hst]]]]]]]].
-      destruct Hst as [[_ [att Hpt]]|[S _]]; [|rewrite Es' in S; discriminate S].
-      destruct Hinv as [->|[_ Hgd]]; [lia|]. rewrite Hpt in Hgd. discriminate Hgd.
+      destruct Hst as [[_ Hor]|[S _]]; [|rewrite Es' in S; discriminate S].
+      destruct Hinv as [->|[_ Hgd]]; [lia|]. exfalso.
+      destruct Hor as [[att Hpt]|[Hu|Hu]]; [rewrite Hpt in Hgd; discriminate Hgd| |];
+        destruct (f_state f); try discriminate Hu; discriminate Hgd.
     + destruct (gap_done (f_state f')); [|lia]. destruct Hinv as [->|[-> _]]; lia.
   - apply IH. unfold visit_count. destruct (is_pass_gap_request f' o) eqn:Eg.
     + unfold is_pass_gap_request in Eg. destruct (tx o) as [wire|] eqn:Et; [|discriminate Eg].
       destruct (f_state f') as [ | | | | | | | | |a] eqn:Es'; try discriminate Eg.
       assert (Hgr : gap_request f' o a) by (split; [rewrite Et; discriminate|left; exact Es']).
       destruct (poll_gap_request_in_gap _ _ _ _ _ _ _ _ _ Ep Hgr) as [_ [_ [_ [_ [_ [_ [_ [_ Hst]]]]]]]].
-      destruct Hst as [[_ [att Hpt]]|[S _]]; [|rewrite Es' in S; discriminate S].
-      destruct Hinv as [->|[_ Hgd]]; [right; split; reflexivity|]. rewrite Hpt in Hgd. discriminate Hgd.
+      destruct Hst as [[_ Hor]|[S _]]; [|rewrite Es' in S; discriminate S].
+      destruct Hinv as [->|[_ Hgd]]; [right; split; reflexivity|]. exfalso.
+      destruct Hor as [[att Hpt]|[Hu|Hu]]; [rewrite Hpt in Hgd; discriminate Hgd| |];
+        destruct (f_state f); try discriminate Hu; discriminate Hgd.
     + destruct (gap_done (f_state f')) eqn:Egd; [|left; reflexivity].
       destruct Hinv as [->|[-> _]]; [left; reflexivity|right; split; reflexivity].
 Qed.
@@ -2403,16 +2526,19 @@ Theorem listen_idle_transmissions f now pin (apps : list A) f' o apps' calls wir
    (exists src st, marker (f_state f) = Some src /\ wire = reply_wire src (ts f) st /\ reply_sent f f' src st)).
 Proof.
   intros H Hk Htx. pose proof (poll_transmissions _ _ _ _ _ _ _ _ _ H Htx) as Hc.
+  assert (Hnu : ~ in_use (f_state f)) by (intros [K|K]; destruct Hk as [Q|Q]; rewrite Q in K; discriminate K).
   destruct Hc as [Y|[Yc [Y|[Y|Y]]]].
   - exfalso. destruct Y as [cs [i [hp [er [_ [[K|K] _]]]]]]; destruct Hk as [Q|Q]; rewrite Q in K; discriminate K.
-  - split; [exact Yc|]. left. destruct Y as [da [Hw [[Hda [[S _]|[_ S]]]|[_ [K|[K|K]]]]]].
+  - split; [exact (quiet_calls_nil _ _ Hnu Yc)|]. left. destruct Y as [da [Hw [[Hda [[S _]|[_ S]]]|[_ [K|[K|[K|K]]]]]]].
     + subst da. split; assumption.
     + exfalso. destruct Hk as [Q|Q]; rewrite S in Q; discriminate Q.
     + exfalso. destruct Hk as [Q|Q]; rewrite Q in K; discriminate K.
     + exfalso. destruct Hk as [Q|Q]; rewrite Q in K; discriminate K.
     + exfalso. destruct Hk as [Q|Q]; rewrite Q in K; discriminate K.
-  - exfalso. destruct Y as [a [_ [_ [_ [_ [_ [[_ [att S]]|[_ [S|[a0 S]]]]]]]]]]; destruct Hk as [Q|Q]; rewrite S in Q; discriminate Q.
-  - split; [exact Yc|]. right. destruct Y as [src [st [Hw Hr]]]. exists src, st. split; [|split; assumption].
+    + exfalso. exact (Hnu K).
+  - exfalso. destruct Y as [a [_ [_ [_ [_ [_ [[_ [[att S]|S]]|[_ [S|[a0 S]]]]]]]]]]; [| exact (Hnu S)| |];
+      destruct Hk as [Q|Q]; rewrite S in Q; discriminate Q.
+  - split; [exact (quiet_calls_nil _ _ Hnu Yc)|]. right. destruct Y as [src [st [Hw Hr]]]. exists src, st. split; [|split; assumption].
     destruct Hr as [[cc [S _]]|[nps [cc [S _]]]]; rewrite S; reflexivity.
 Qed.
 
